@@ -5,9 +5,9 @@
 Require Import String.
 Require Import List NArith Bool PeanoNat Lia ZifyBool ZifyN.
 Require Import KV.Parser.Utf8 KV.Parser.Unicode KV.Parser.Keywords KV.Parser.Scanners KV.Parser.Grammar KV.Parser.Run.
-Require Import KV.Parser.Utf8Proofs KV.Parser.ScannerProofs KV.Parser.HelperProofs KV.Parser.GrammarProofs KV.Parser.RoundTrip KV.Parser.RoundTrip2 KV.Parser.RoundTrip3.
+Require Import KV.Parser.Utf8Proofs KV.Parser.ScannerProofs KV.Parser.HelperProofs KV.Parser.GrammarProofs KV.Parser.FuelProofs KV.Parser.RoundTrip KV.Parser.RoundTrip2 KV.Parser.RoundTrip3.
 Require KV.Parser.Lex KV.Parser.StmtRT KV.Parser.FilterRT KV.Parser.FilterRT2 KV.Parser.SelectRT KV.Parser.BindRT KV.Parser.ValuesRT KV.Parser.GroupRT
-        KV.Parser.PrologueRT KV.Parser.TopRT KV.Parser.SizeRT KV.Parser.ExamplesRT.
+        KV.Parser.PrologueRT KV.Parser.TopRT KV.Parser.SizeRT KV.Parser.UpdateRT KV.Parser.ExamplesRT.
 Import ListNotations.
 Open Scope N_scope.
 
@@ -215,6 +215,46 @@ Theorem C16_roundtrip_select :
 Proof. exact select_roundtrip. Qed.
 Print Assumptions C16_roundtrip_select.
 
+(* ---- fuel adequacy on ARBITRARY input (FuelProofs.v) ------------------------------------------------------------ *)
+(* The model recurses on fuel; `Fuel` is its own artefact.  With fuel linear in the length of the input NO function of
+   the grammar model answers `Fuel` - shared-fuel recursion spends at most three units per consumed byte (e.g.
+   group_loop -> group_primary -> group_pattern -> `{`), and every loop with its own counter consumes at least one
+   byte per iteration.  Hence `Fuel` can be dropped from the totality statements: *)
+Theorem C16_fuel_adequate :
+  forall fuel alias s, Valid s -> (3 * length s + 5 <= fuel)%nat ->
+    parse_top fuel alias s <> Fuel /\ parse_sparql_query fuel s <> Fuel.
+Proof. intros fuel alias s Hv Hf. split; [now apply parse_top_no_fuel|now apply parse_sparql_query_no_fuel]. Qed.
+Print Assumptions C16_fuel_adequate.
+
+(* the same for every grammar entry the check drives through the hooks *)
+Theorem C16_fuel_adequate_entries :
+  forall fuel s, Valid s -> (3 * length s + 6 <= fuel)%nat ->
+    group_pattern fuel s <> Fuel /\ (forall ad, select_core fuel ad s <> Fuel) /\ (forall alias, update_core fuel alias s <> Fuel) /\
+    filter_clause fuel s <> Fuel /\ triples_statement fuel s <> Fuel /\ quad_block s <> Fuel /\
+    bind_clause s <> Fuel /\ values_clause s <> Fuel /\ (forall tf, (length s < tf)%nat -> quoted_triple tf s <> Fuel).
+Proof.
+  intros fuel s Hv Hf. repeat split.
+  - apply group_pattern_nf; [assumption|lia].
+  - intros ad. apply select_core_nf; [assumption|lia].
+  - intros alias. apply update_core_nf; [assumption|lia].
+  - apply filter_clause_nf; [assumption|lia].
+  - apply triples_statement_nf; [assumption|lia].
+  - now apply quad_block_nf.
+  - now apply bind_clause_nf.
+  - now apply values_clause_nf.
+  - intros tf Ht. now apply quoted_triple_nf.
+Qed.
+Print Assumptions C16_fuel_adequate_entries.
+
+(* TOTALITY, final form: with the fuel of Run.v (8 * length + 64) both entry points answer a syntax tree or an ordinary
+   error on EVERY valid UTF-8 request - never a panic (C16_parser_total) and never `Fuel` *)
+Theorem C16_parser_total_no_fuel :
+  forall alias s, Valid s ->
+    ((exists t, parse_top (default_fuel s) alias s = Ok t) \/ (exists k l e, parse_top (default_fuel s) alias s = Err k l e)) /\
+    ((exists q, parse_sparql_query (default_fuel s) s = Ok q) \/ (exists k l e, parse_sparql_query (default_fuel s) s = Err k l e)).
+Proof. intros alias s Hv. split; [now apply parse_top_total|now apply parse_sparql_query_total]. Qed.
+Print Assumptions C16_parser_total_no_fuel.
+
 (* ---- (3') the round trip over layout-annotated syntax trees ----------------------------------------- *)
 (* Lex.v ... SizeRT.v.  A concrete syntax tree (CST) is the source tree plus, at every token, the layout printed before it
    (`L`: a list of whitespace characters and `#` comments) and the letter case of every keyword; terms are structured
@@ -227,7 +267,7 @@ Print Assumptions C16_roundtrip_select.
    by running the model. *)
 Section CST.
 Import KV.Parser.Lex KV.Parser.StmtRT KV.Parser.FilterRT KV.Parser.FilterRT2 KV.Parser.SelectRT KV.Parser.BindRT KV.Parser.ValuesRT KV.Parser.GroupRT
-       KV.Parser.PrologueRT KV.Parser.TopRT KV.Parser.SizeRT.
+       KV.Parser.PrologueRT KV.Parser.TopRT KV.Parser.SizeRT KV.Parser.UpdateRT.
 
 (* a triples statement: subject, `;`-separated predicate groups (a predicate or `a`), `,`-separated objects, optional
    trailing `;`; any layout, every term class; the tree is the list of expanded triples *)
@@ -242,7 +282,9 @@ Print Assumptions C16_roundtrip_statement.
    parenthesised sums: the loops of the parser build exactly the left-nested tree of the CST, i.e. the printed
    precedence is the parsed precedence.  For `( e )` the parser first tries the arithmetic readings (function call,
    comparison `( sum ) op ...`) and only then the boolean one: bool_arith (FilterRT2.v) shows that these readings fail
-   on every printed boolean expression whose first atom is not a function call (`hd_or`, part of `wf_atom`). *)
+   on every printed boolean expression, including one that starts with a function call (`name (` is no operand:
+   operand_call_err / prefixed_name_err_run), provided the layout between the function name and its `(` does not
+   start with a non-ASCII whitespace character (`hd_or`, part of `wf_atom`: U+1680 is whitespace AND PN_CHARS_BASE). *)
 Theorem C16_roundtrip_filter_expression :
   forall o fuel rest, (sz_or o <= fuel)%nat -> wf_or o rest = true -> Valid rest -> after_atom rest ->
     no_op2 38 rest -> no_op2 124 rest -> f_or fuel (pr_or o ++ rest) = Ok (tr_or o, rest).
@@ -339,20 +381,59 @@ Theorem C16_roundtrip_query_default_fuel :
     parse_top (default_fuel text) aliases text = Ok (TSelect (tr_prologue ps []) (tr_sel q)).
 Proof. exact query_roundtrip_default. Qed.
 Print Assumptions C16_roundtrip_query_default_fuel.
+(* ---- the six update forms ---------------------------------------------------------------------------------------- *)
+(* quad blocks `{ ... }` of triples statements and `GRAPH name { statements }` templates, optional `.` everywhere *)
+Theorem C16_roundtrip_quad_block :
+  forall q R, wf_qb q R = true -> Valid R -> exists qs, quad_block (pr_qb q ++ R) = Ok (qs, R) /\ map strip_q qs = tr_qb q.
+Proof. exact quad_block_rt. Qed.
+Print Assumptions C16_roundtrip_quad_block.
+
+(* INSERT DATA, DELETE DATA, INSERT {..} WHERE {..}, DELETE {..} WHERE {..}, DELETE {..} INSERT {..} WHERE {..},
+   DELETE WHERE {..}; `wf_upd` = syntax (`wf_upd_syntax`) + the parser's term checks (`wf_upd_terms`: no variable in a
+   DATA block, no blank node in anything deleted) *)
+Theorem C16_roundtrip_update :
+  forall u fuel allow R, (sz_upd u <= fuel)%nat -> wf_upd u R = true -> Valid R ->
+    update_core fuel allow (pr_upd u ++ R) = Ok (tr_upd u, R).
+Proof. exact update_rt. Qed.
+Print Assumptions C16_roundtrip_update.
+
+(* the whole update request through parse_top, with the fuel of Run.v *)
+Theorem C16_roundtrip_update_request :
+  forall ps u e aliases, forallb wf_prefix ps = true -> wf_upd u (pr_end e) = true -> wf_end e = true ->
+    let text := pr_prologue ps ++ pr_upd u ++ pr_end e in
+    parse_top (default_fuel text) aliases text = Ok (TUpdate (tr_prologue ps []) (tr_upd u)).
+Proof. exact top_update_roundtrip_default. Qed.
+Print Assumptions C16_roundtrip_update_request.
+
+(* the DATA-block checks reject exactly the ill-formed trees of these shapes: a syntactically well-formed INSERT DATA
+   with a variable (graph name included), DELETE DATA with a variable or a blank node, is answered with an error *)
+Theorem C16_update_data_checks_reject :
+  forall l kw l2 kw2 qb fuel allow R, Valid R -> forallb quad_simple (tr_qb qb) = true ->
+    (wf_upd_syntax (UInsertData l kw l2 kw2 qb) R = true -> existsb (quad_hit is_variable_term true) (tr_qb qb) = true ->
+       is_err (update_core fuel allow (pr_upd (UInsertData l kw l2 kw2 qb) ++ R))) /\
+    (wf_upd_syntax (UDeleteData l kw l2 kw2 qb) R = true ->
+       existsb (quad_hit is_variable_term true) (tr_qb qb) || existsb (quad_hit is_blank_term false) (tr_qb qb) = true ->
+       is_err (update_core fuel allow (pr_upd (UDeleteData l kw l2 kw2 qb) ++ R))).
+Proof.
+  intros l kw l2 kw2 qb fuel allow R HR Hs. split; intros H Hh.
+  - now apply insert_data_rejects_variables.
+  - now apply delete_data_rejects_variables_and_blank_nodes.
+Qed.
+Print Assumptions C16_update_data_checks_reject.
 End CST.
 
 (* C16_roundtrip_partial.  NOT proved as a round trip (decided on generated trees under ~10 layouts by the tree stream of
    checks/c16.py - implementation vs Spec tree vs this model - and by the exhaustive follower stream):
-   - in FILTER: a parenthesised boolean expression whose FIRST atom is a function call, e.g. `(isTRIPLE(?x) && ...)`
-     (the failure of the parser's arithmetic reading of it is not proved), and a bare arithmetic atom that starts with
-     a parenthesised operand (`FILTER((?a) * 2)`, which the parser in fact rejects);
+   - in FILTER: a parenthesised boolean expression that starts with a function call whose name is followed by a
+     NON-ASCII whitespace character before `(` (U+1680 would be read as part of a prefix label); a bare arithmetic
+     atom that starts with a parenthesised operand, `FILTER((?a) * 2)` - the parser REJECTS it
+     (ExamplesRT.paren_arith_atom_rejected), so there is nothing to round-trip;
    - `.` after FILTER / BIND / VALUES (the parser rejects it), OPTIONAL / MINUS (not in the grammar), a VALUES block
      `( ?x ) { ( 1 ) }` with one parenthesised variable and parenthesised rows (rejected by the parser as well);
-   - the six update forms (INSERT DATA, DELETE DATA, DELETE WHERE, INSERT / DELETE / DELETE-INSERT ... WHERE);
+   - the DATA aliases of parse_combined_query_with_options (`INSERT { .. }` / `DELETE { .. }` without WHERE);
    - token classes: exponent forms of numbers, literals with language tag / datatype, long (triple-quoted) strings,
      quoted triples `<< >>` as terms, `bare identifiers` as subjects / objects;
-   - fuel adequacy for ARBITRARY input (that parse_top with Run.v's fuel never answers Fuel on a text that is not a
-     printed CST) is observed by the check, not proved; for printed requests it is C16_roundtrip_query_default_fuel. *)
+   (fuel adequacy is no longer partial: C16_fuel_adequate / C16_parser_total_no_fuel hold for arbitrary input.) *)
 
 (* ---- the lexical helpers of the lowering (utils.rs) ------------------------------------------------ *)
 (* unescape_sparql_iri and literal_lexical_value (as repaired by 484100d: `hexadecimal.get(..digits)`) return a
